@@ -126,11 +126,7 @@ Verdict(e) ==
 
 \* an unexplained event may be a known finding: label it with the deviation that explains it
 Explained(e, v) ==
-  IF e.op = "inverse" /\ KF_C12_SmallPrecision("inverse", Arg(e.a), PrecOf(e), e.r, v[2])
-    THEN <<"dev", "KF-C12-small-precision">>
-  ELSE IF e.op = "div" /\ (IsOneOverX(e) \/ ("bits" \in DOMAIN e.a /\ FArg(e.a) = DOne)) /\ FArg(e.b).d # <<>> /\ KF_C12_SmallPrecision("div", FArg(e.b), cfg.precision, e.r, v[2])
-    THEN <<"dev", "KF-C12-small-precision">>
-  ELSE IF e.op = "de_json" /\ KF_C17_ValueThroughFloat(e.form, e.doc, e.r)
+  IF e.op = "de_json" /\ KF_C17_ValueThroughFloat(e.form, e.doc, e.r)
     THEN <<"dev", "KF-C17-value-through-f64">>
   ELSE v
 
